@@ -163,6 +163,13 @@ type verif struct {
 }
 
 func doVerify(e *sxg.Exchange, kc *keyCert, sec int64, ns int, phase string) verif {
+	return doVerifyT(e, kc, time.Unix(sec, int64(ns)), phase)
+}
+
+// doVerifyT verifies at a time.Time given as such (the zero Time, instants carrying a monotonic reading or another
+// location are values a caller can pass); the instant is recorded as its Unix seconds (two's complement) + nanoseconds.
+func doVerifyT(e *sxg.Exchange, kc *keyCert, tm time.Time, phase string) verif {
+	sec, ns := tm.Unix(), tm.Nanosecond()
 	v := verif{Phase: phase, T: tstamp{u64to(uint64(sec)), ns}, Ret: []int{}}
 	func() {
 		defer func() {
@@ -170,7 +177,7 @@ func doVerify(e *sxg.Exchange, kc *keyCert, sec int64, ns int, phase string) ver
 				v.Panic = true
 			}
 		}()
-		ret, ok := e.Verify(time.Unix(sec, int64(ns)), func(string) ([]byte, error) { return kc.chain, nil }, quiet)
+		ret, ok := e.Verify(tm, func(string) ([]byte, error) { return kc.chain, nil }, quiet)
 		v.Ok = ok
 		if ok {
 			v.Ret = ints(ret)
